@@ -28,12 +28,10 @@ Theorem C10_trace_complete_check_sound :
 Proof. exact trace_complete_check_sound. Qed.
 Print Assumptions C10_trace_complete_check_sound.
 
-(* the hand-written Instruction::span table and the operand widths the VM decodes differ exactly at
-   NativeFunctionPointer (span() says 6, the VM reads 5 bytes) *)
+(* the Instruction::span table (regenerated from the source on every run and compared with the
+   hand-written one) and the operand widths the VM decodes agree for every opcode *)
 Theorem C10_span_table_vs_vm :
-  forall o n, In (o, n) span_table ->
-              (o <> OpNativeFunctionPointer -> n = op_span o) /\
-              (o = OpNativeFunctionPointer -> n = 6 /\ op_span o = 5).
+  forall o n, In (o, n) span_table -> n = op_span o.
 Proof. exact span_table_vs_vm. Qed.
 Print Assumptions C10_span_table_vs_vm.
 
